@@ -367,6 +367,10 @@ type Checker[C any] struct {
 	// Key optionally gives the canonical bytes hashed for distinctness
 	// (default: the JSON encoding of the case).
 	Key func(c C) []byte
+	// Hashed optionally says whether a non-trivial case takes part in the
+	// distinct-by-hash count (false for cases that lie inside a domain a grid
+	// already counts by construction, so nothing is counted twice).
+	Hashed func(c C) bool
 	// Risky, when set and true for a case, makes Run write pending.json before
 	// calling Check (unrecoverable process death is then attributable).
 	Risky func(c C) bool
@@ -386,6 +390,10 @@ func (k *Checker[C]) Eval(c C) *Failure {
 		st.rule = k.Rule
 	}
 	nt, labels := k.Classify(c)
+	if nt && k.Hashed != nil && !k.Hashed(c) {
+		nt = false
+		labels = append(labels, "nontrivial-but-inside-grid-domain(not-hashed)")
+	}
 	st.record(nt, labels, func() []byte {
 		if k.Key != nil {
 			return k.Key(c)
